@@ -58,6 +58,9 @@ type tracker struct {
 	heightBefore uint32
 	inadmissible string
 	c12ok       bool
+	reqEpochH   uint32          // epoch of requestedEpoch
+	reqEpochV   byte
+	requestedEpoch map[H]bool   // every hash passed to RequestTx in the current (height, view)
 }
 
 func newTracker() *tracker { return &tracker{lockView: -1} }
@@ -182,10 +185,24 @@ func (m *monitor) requestTx(n *node, hs []H) {
 	t.effects = append(t.effects, "REQTX")
 	t.roll(n.d.BlockIndex)
 	t.wanted = map[H]bool{}
+	if t.requestedEpoch == nil || t.reqEpochH != n.d.BlockIndex || t.reqEpochV != n.d.ViewNumber {
+		t.requestedEpoch, t.reqEpochH, t.reqEpochV = map[H]bool{}, n.d.BlockIndex, n.d.ViewNumber
+	}
 	for _, h := range hs {
 		t.wanted[h] = true
+		t.requestedEpoch[h] = true
 	}
 	t.wantedView, t.wantedSet, t.answered = n.d.ViewNumber, true, false
+}
+
+// holdsAllTx: every transaction of the proposal is present (by hash, not by count)
+func holdsAllTx(d *dbft.DBFT[H]) bool {
+	for _, h := range d.TransactionHashes {
+		if tx, ok := d.Transactions[h]; !ok || tx == nil {
+			return false
+		}
+	}
+	return true
 }
 
 func prepHashOf(p dbft.ConsensusPayload[H]) H { return p.GetPrepareResponse().PreparationHash() }
@@ -208,6 +225,9 @@ func (m *monitor) broadcast(n *node, p *Payload) {
 	m.tick("C05")
 	if t.decided && p.T != dbft.RecoveryMessageType {
 		m.nhit(n, "C05", "broadcast-after-decision", fmt.Sprintf("node %d broadcast type %d after deciding height %d", n.id, p.T, h))
+	}
+	if m.byz[n.id] { // restarted with forgotten state: counted faulty, the honest-node clauses below do not apply
+		return
 	}
 	// C03: own-view monotonicity
 	m.tick("C03")
@@ -281,7 +301,7 @@ func (m *monitor) broadcast(n *node, p *Payload) {
 			m.nhit(n, "C04", "response-to-non-primary", fmt.Sprintf("node %d responded to a proposal from %d, primary is %d", n.id, primary.ValidatorIndex(), d.GetPrimaryIndex(d.ViewNumber)))
 		case p.Body.(prepResp).ph != primary.Hash():
 			m.nhit(n, "C04", "response-names-other-hash", fmt.Sprintf("node %d response does not name the held proposal", n.id))
-		case len(d.TransactionHashes) != len(d.Transactions):
+		case !holdsAllTx(d):
 			m.nhit(n, "C04", "response-missing-transactions", fmt.Sprintf("node %d responded holding %d of %d transactions", n.id, len(d.Transactions), len(d.TransactionHashes)))
 		default:
 			var bh H
@@ -329,7 +349,7 @@ func (m *monitor) broadcast(n *node, p *Payload) {
 				m.nhit(n, "C04", "commit-without-proposal", fmt.Sprintf("node %d sent type %d at (%d,%d) without holding the proposal", n.id, p.T, h, d.ViewNumber))
 			} else if cnt < d.M() {
 				m.nhit(n, "C04", "commit-without-quorum", fmt.Sprintf("node %d sent type %d at (%d,%d) holding %d matching preparations, M=%d", n.id, p.T, h, d.ViewNumber, cnt, d.M()))
-			} else if len(d.TransactionHashes) != len(d.Transactions) {
+			} else if !holdsAllTx(d) {
 				m.nhit(n, "C04", "commit-missing-transactions", fmt.Sprintf("node %d sent type %d without all transactions", n.id, p.T))
 			}
 		}
@@ -690,12 +710,18 @@ func classifyInadmissible(n *node, desc string) string {
 			return "stale-timeout"
 		}
 	case "X":
+		// requested = passed to the RequestTx callback since the node entered its current (height, view)
 		var x uint64
 		fmt.Sscanf(f[1], "%d", &x)
-		for _, h := range d.MissingTransactions {
+		t := n.tr
+		inProposal := false
+		for _, h := range d.TransactionHashes {
 			if h == Tx(x).Hash() {
-				return ""
+				inProposal = true
 			}
+		}
+		if inProposal && t.requestedEpoch != nil && t.reqEpochH == d.BlockIndex && t.reqEpochV == d.ViewNumber && t.requestedEpoch[Tx(x).Hash()] {
+			return ""
 		}
 		return "unrequested-transaction"
 	case "M":
